@@ -125,7 +125,7 @@ def ro_compliance(o):
         st = o.run1(lambda: call(o, ro, 'strain', SV(s, kind=kind)), label=f'strain[{kind}]')
         c = o.named(f'c_{kind}', o.run1(lambda: call(o, ro, 'tangential_compliance', SV(s, kind=kind)), label=f'compliance[{kind}]'))
         d = o.named(f'd_{kind}', z3.simplify(npmodel.diff(st.t, s)))
-        o.prove(f'compliance[{kind}] == d strain/ds', c == d, kind='deriv')
+        o.prove(f'compliance[{kind}] == d strain/ds', c == d, kind='deriv', pairs=False)
         cm = o.named(f'cneg_{kind}', o.run1(lambda: call(o, ro, 'tangential_compliance', SV(-s, kind=kind)), label=f'compliance(-s)[{kind}]'))
         o.prove(f'compliance[{kind}] even', cm == c)
         o.prove(f'compliance[{kind}] > 0', c > 0)
